@@ -81,6 +81,7 @@ static std::string doMatch(const std::vector<std::string>& f) {
     auto pat = toUnits(hx::parseHexList(f[1]));
     auto str = toUnits(hx::parseHexList(f[2]));
     std::string opts = f.size() > 3 ? f[3] : "X";
+    if (opts == "-") opts = "";
     std::vector<XMLCh> o(opts.begin(), opts.end()); o.push_back(0);
     try {
         RegularExpression re(pat.data(), o.data());
